@@ -33,12 +33,28 @@ inductive Cls where
   | plain | comm | hasio | pinata
 deriving Repr, DecidableEq, Inhabited
 
+/-- a parameter of a module: what its class declares and what the configuration says about it (values are integers:
+only their identity matters) -/
+structure PCfg where
+  name : String
+  hasWrite : Bool := true            -- the class defines a method `write_<name>` (code of the driver)
+  clsDefault : Option Int := some 0  -- `Parameter(…, default=…)`
+  clsValue : Option Int := none      -- `Parameter(…, value=…)`
+  cfgDefault : Option Int := none    -- `default` given for the parameter in the configuration
+  cfgValue : Option Int := none      -- `value` given for the parameter in the configuration
+  needscfg : Bool := false           -- `Parameter(…, needscfg=True)`: a value is required
+  cfgBad : Bool := false             -- the `value` given in the configuration is not of the parameter's datatype
+deriving Repr, DecidableEq, Inhabited
+
+/-- a parameter with a write method and declared default 0 that the configuration sets to 1 -/
+def wp (n : String) : PCfg := { name := n, cfgValue := some 1 }
+
 structure ModCfg where
   name : Name
   cls : Cls
   exported : Bool
   poll : Bool                 -- enablePoll
-  writes : List String        -- parameters with a configured value and a write_ method (writeDict)
+  params : List PCfg := []    -- the parameters of the class that matter here, in the order of `accessibles`
   atts : List Att
   touchEarly : List String    -- attachments used inside earlyInit
   touchInit : List String     -- attachments used inside initModule
@@ -97,6 +113,41 @@ structure St where
   oof : Bool := false                 -- a fuel bound was hit (never on the configurations the theorems speak about)
 deriving Repr, Inhabited
 
+/-- properties given in the configuration replace the ones of the declaration (`_add_accessible`, modulebase.py:
+`accessible.setProperty(propname, propvalue)` on the copy of the class's Parameter object) -/
+def PCfg.value (q : PCfg) : Option Int := q.cfgValue.orElse (fun _ => q.clsValue)
+def PCfg.default (q : PCfg) : Option Int := q.cfgDefault.orElse (fun _ => q.clsDefault)
+
+/-- `hasattr(self, 'write_' + pname)`: `HasAccessibles.__init_subclass__` creates a wrapper `write_<pname>` for **every**
+parameter ("always create the write wrapper", modulebase.py:178-209) — it validates the value, calls the `write_<pname>`
+method of the class when there is one, and announces the result — so the attribute exists whether or not the class
+defines a write method. -/
+def hasWriteAttr (_q : PCfg) : Bool := true
+
+/-- `Module._handle_writes` (modulebase.py:495-535) for a parameter with a datatype and well-typed value / default: the
+entry it puts into `writeDict`.  `pobj.value is None` (nothing given, or only a default): the default is applied, nothing
+is registered.  Otherwise — "value given explicitly, either by cfg or as Parameter argument" — the value is registered
+for the initial write (`if hasattr(self, 'write_' + pname)`); the default plays no role. -/
+def handleWrites (q : PCfg) : Option (String × Int) :=
+  match q.value with
+  | none => none
+  | some v => if hasWriteAttr q then some (q.name, v) else none
+
+/-- the two complaints of `_handle_writes` (modulebase.py:503-518): the configured value does not match the datatype
+(`self.errors.append(f'{pname}.{propname}: {e}')`), or no value at all although one is required (`… has no default value
+and was not given in config!`).  `Module.__init__` then raises `ConfigError(self.errors)`: the module is not created. -/
+def paramRejected (q : PCfg) : Bool := (q.cfgValue.isSome && q.cfgBad) || (q.value.isNone && q.needscfg)
+
+/-- `writeDict` of the module object made from `c` (`Module.__init__`: `_add_accessible` for every accessible, in the
+order of `accessibles`) -/
+def writeDict (c : ModCfg) : List (String × Int) := c.params.filterMap handleWrites
+
+/-- the entries of `writeDict` whose initial write reaches the driver — the class defines a method `write_<p>` —, in
+order.  (For the other entries `writeInitParams` calls the bare wrapper: the value is validated and announced, no code of
+the driver runs; nothing is observed.) -/
+def ModCfg.writes (c : ModCfg) : List String :=
+  (c.params.filter (fun q => q.hasWrite && (handleWrites q).isSome)).map (·.name)
+
 def findCfg (l : List ModCfg) (n : Name) : Option ModCfg := l.find? (fun c => c.name == n)
 
 def emit (st : St) (e : Ev) : St := { st with log := st.log ++ [e] }
@@ -111,7 +162,7 @@ def setIo (c : ModCfg) (ioname : Name) : ModCfg :=
 
 /-- the communicator a `HasIO` module creates for itself (io.py:57-66) -/
 def autoIo (ioname : Name) : ModCfg :=
-  { name := ioname, cls := .comm, exported := true, poll := true, writes := [], atts := [], touchEarly := [],
+  { name := ioname, cls := .comm, exported := true, poll := true, params := [], atts := [], touchEarly := [],
     touchInit := [], failEarly := false, failInit := false, uri := none, scan := [], delay := 0 }
 
 def addModule (st : St) (c : ModCfg) : St :=
@@ -136,8 +187,9 @@ def getModuleInstance (st : St) (name : Name) : St × Res :=
   else match findCfg st.known name with
     | none => (st, .raised "NoSuchModule")
     | some c =>
-      if c.atts.any (fun a => a.mandatory && a.target.isNone) then
-        (addErr st ⟨"create", name, ""⟩, .none)        -- ConfigError of Module.__init__: mandatory property without value
+      if c.atts.any (fun a => a.mandatory && a.target.isNone) || c.params.any paramRejected then
+        -- ConfigError of Module.__init__: mandatory property without value, or a parameter value it rejects
+        (addErr st ⟨"create", name, ""⟩, .none)
       else
         let (st, c) := hasIoCreate st c
         (addModule st c, .ok name)
@@ -214,7 +266,7 @@ def hasIoCheck (rec : St → Name → St × Res) (c : ModCfg) : Step := fun st =
 
 /-- `Module.initModule` (modulebase.py:589-602): registration with the poll thread of the io, or an own one -/
 def registerPoll (rec : St → Name → St × Res) (c : ModCfg) : Step := fun st =>
-  if c.poll || !c.writes.isEmpty then
+  if c.poll || !(writeDict c).isEmpty then       -- `if self.enablePoll or self.writeDict:`
     if c.cls == Cls.hasio then
       match findAtt c "io" with
       | none => (st, some "AttributeError")
@@ -330,7 +382,9 @@ def writeOne (c : ModCfg) (p : String) : Block :=
     if isSecop cls then ([Ev.write c.name p], none)     -- except SECoPError as e: self.log.error / debug
     else ([Ev.write c.name p], none)                    -- except Exception: self.log.error(formatException())
 
-/-- `Module.writeInitParams` (modulebase.py:839-862) of the module object `c`, for every outcome of its `write_` methods -/
+/-- `Module.writeInitParams` (modulebase.py:839-862) of the module object `c`, for every outcome of its `write_` methods:
+the loop over `writeDict`, seen at the write methods of the driver (`c.writes`; the entries of parameters without such a
+method are popped too and handed to the bare wrapper, which calls no code of the driver) -/
 def writeInitParams (c : ModCfg) : Block := blocks (c.writes.map (writeOne c))
 
 /-- `CommunicationFailedError` and its subclasses -/
@@ -543,6 +597,14 @@ def shutdownLog (mods : List Name) (threads : List Name) (edges : List (Name × 
   mods.map Ev.stopPoll ++                                      -- first loop: stopPollThread on every module
   (mods.filter threads.contains).map Ev.stopPoll ++            -- joinPollThread calls it again where a thread exists
   (getSortedModules mods (attOf edges) pick).map Ev.shutdown
+
+/-- the values handed to the `write_` methods, call by call: `wfunc(value)` with the entry popped from `writeDict`
+(modulebase.py:851-861) -/
+def writtenOf (st : St) (log : List Ev) : List (Name × String × Int) :=
+  log.filterMap (fun e =>
+    match e with
+    | .write m p => ((writeDict (objOf st m)).lookup p).map (fun v => (m, p, v))
+    | _ => none)
 
 structure Run where
   st : St
